@@ -604,10 +604,8 @@ func dynamicScenario(file string) sched.Scenario {
 					}
 					final := d.Cur
 					okFinal := final == c.target
-					if !okFinal && t.Levels[final] != nil {
-						// indistinguishable prompts count as one level
-						okFinal = matches(t.Levels[c.target], t.Prompts[final]) || matches(t.Levels[final], t.Prompts[c.target])
-					}
+					// the driver was told its current level (cache correct), so even a level whose prompt the target's
+					// pattern also accepts is a different level to leave: the device must end in the target itself
 					if !okFinal {
 						vio("c17:wrong-level-reached:"+name, "AcquirePriv(%q) from %q ended in %q (received %q)", c.target, c.cur, final, nonEmpty(d.Lines[mark:mark2]))
 					}
@@ -633,7 +631,7 @@ func TestCheck(t *testing.T) {
 	sched.Main(t, sched.Check{
 		ID:    "C17",
 		Level: "exploration",
-		Rule:  "exhaustive: every name in platform.GetPlatformNames(), every embedded assets/platforms/*.yaml (except the documentation-only example.yaml), every variant; static: name<->file bijection, platform-type, declared driver type, level fields equal to the YAML parsed independently, single tree, default level, every pattern/escalate-prompt compiles, a hand-written canonical prompt per level matched by its own level (with not-contains), by the joined pattern in every join order (alone and after a line of output) and by the pattern the driver installs, on-open/on-close steps well-formed, variants replace exactly the sections they define, the default loaded again after each variant is unchanged, two platforms of one name keep their own drivers; dynamic: a device model built from the definition (one mode per level, canonical prompts, transitions = escalate/deescalate strings, password prompt where escalate-auth): Open runs the on-open steps, Close the on-close steps, and for every ordered (current, target) pair whose path only climbs into levels that have an escalate command AcquirePriv ends in the target or a level with an indistinguishable prompt",
+		Rule:  "exhaustive: every name in platform.GetPlatformNames(), every embedded assets/platforms/*.yaml (except the documentation-only example.yaml), every variant; static: name<->file bijection, platform-type, declared driver type, level fields equal to the YAML parsed independently, single tree, default level, every pattern/escalate-prompt compiles, a hand-written canonical prompt per level matched by its own level (with not-contains), by the joined pattern in every join order (alone and after a line of output) and by the pattern the driver installs, on-open/on-close steps well-formed, variants replace exactly the sections they define, the default loaded again after each variant is unchanged, two platforms of one name keep their own drivers; dynamic: a device model built from the definition (one mode per level, canonical prompts, transitions = escalate/deescalate strings, password prompt where escalate-auth): Open runs the on-open steps, Close the on-close steps, and for every ordered (current, target) pair whose path only climbs into levels that have an escalate command AcquirePriv (driver told its current level) ends in the target itself",
 		Assumptions: []string{
 			"canonical prompts are the harness's ground truth (about 55 entries); a mismatch on the pinned tree was classified by hand",
 			"the driver's cached level is correct when the device is put into `current` (otherwise Go map iteration order decides between levels with overlapping patterns)",
